@@ -202,6 +202,24 @@ Proof.
   rewrite (anti_tickinv_gen neg s r [] H). unfold anti. rewrite filter_app. reflexivity.
 Qed.
 
+Lemma diff_tickinv_gen : forall neg xss (r : list env) i0,
+  length xss = length r ->
+  concat (stateful LStatic i0 diff_step neg (combine xss (map (fun _ => []) r)))
+  = diff neg (concat xss).
+Proof.
+  induction xss as [|xs s IH]; intros [|e r] i0 H; simpl in H; try discriminate; [reflexivity|].
+  injection H as H. simpl. rewrite app_nil_r. rewrite (IH r i0 H).
+  unfold diff. rewrite filter_app. reflexivity.
+Qed.
+
+Lemma diff_tickinv : forall neg xss (bs : list env), length xss = length bs -> bs <> [] ->
+  concat (op_run LStatic [] diff_step (combine xss (first_tick neg bs))) = diff neg (concat xss).
+Proof.
+  intros neg [|xs s] [|e r] H NE; simpl in H; try discriminate; [congruence|].
+  injection H as H. unfold op_run. simpl.
+  rewrite (diff_tickinv_gen neg s r [] H). unfold diff. rewrite filter_app. reflexivity.
+Qed.
+
 (* ------------------------------------------------------------------ join with a Bounded build side *)
 
 (* join_multiset_half<'static,'tick> when the build side is complete in the first tick: every
@@ -301,6 +319,9 @@ Proof.
     destruct (ord n1) eqn:O1; destruct (ord n2) eqn:O2; simpl in D1 |- *;
       try (rewrite D1; reflexivity); apply pairs_perm; try reflexivity;
       try (rewrite D1; reflexivity); exact D1.
+  - (* SDifference *) rewrite diff_tickinv by (auto using run_s_length).
+    apply equiv_congr; [intros; apply filter_perm; assumption | auto].
+  - (* SPart *) rewrite concat_map_filter. apply equiv_congr; [apply filter_perm | auto].
 Qed.
 
 Lemma last_map : forall (f : val -> val) yss,
